@@ -535,8 +535,12 @@ structure PathRow where
   func : String
   line : Nat
   recv : String
-  /-- the deadline expression as written -/
+  /-- the deadline expression as written (locals assigned once are resolved) -/
   arg : String
+  /-- the arming call sits in a method or closure of `relayCore` -/
+  inRelayCore : Bool
+  /-- the deadline expression is computed from `halfCloseTimeout` -/
+  fromGrace : Bool
   path : Nat
   /-- on this path the deadline is reset to zero (directly or by a registered defer), or the conn is closed -/
   cleared : Bool
@@ -544,12 +548,14 @@ structure PathRow where
   armFailed : Bool
 deriving Repr, DecidableEq
 
-/-- the ONE arming site that is meant to outlive its function: the half-close grace timer of
-`relayCore.run` (`dir.dst.SetReadDeadline(time.Now().Add(c.halfCloseTimeout))`), modelled by `resolve`.
-Keyed on function, receiver and deadline expression, so any other deadline armed in `relayCore.run`
-(or this one with another duration) is an ordinary row. -/
+/-- the arming site that is meant to outlive its function: the half-close grace timer of `relayCore`
+(`dir.dst.SetReadDeadline(time.Now().Add(c.halfCloseTimeout))`), modelled by `resolve`.  Keyed on "a method
+or closure of `relayCore` arms a deadline computed from `halfCloseTimeout`" (the extractor resolves a local
+that was assigned that expression), so turning the closure into a method, renaming `dir`, or hoisting the
+expression into a variable keeps the row exempt, while any OTHER deadline armed in `relayCore` is an
+ordinary row. -/
 def PathRow.isGraceTimer (r : PathRow) : Bool :=
-  r.func == "relayCore.run" && r.recv == "dir.dst" && r.arg == "time.Now().Add(c.halfCloseTimeout)"
+  r.inRelayCore && r.fromGrace
 
 def PathRow.good (r : PathRow) : Bool :=
   r.cleared || r.armFailed || r.isGraceTimer
